@@ -135,7 +135,9 @@ static bool write_and_verify_chunk(zckCtx *src, zckCtx *tgt,
         int rb = BUF_SIZE;
         if(rb > to_read)
             rb = to_read;
-        if(!read_data(src, buf, rb))
+        /* Anything but a complete read (error, or the source ends inside the
+         * chunk its index promises) means this chunk can't be taken from here */
+        if(read_data(src, buf, rb) != rb)
             return false;
         if(!hash_update(tgt, &check_hash, buf, rb))
             return false;
